@@ -78,6 +78,10 @@ def run(F, R):
     # through the token-checked completion function (C03.E15)
     from .C03 import release_rule
     release_rule(F, R, 'O13')
+    # O15: an entry is complete for the device that reads it: a queue built in a mode the device did not negotiate publishes entries
+    # whose buffers that device never finds (C08.H3)
+    from .C08 import queue_modes_rule
+    queue_modes_rule(F, R, M, 'O15', ['device::'])
     eps = queue_api_entry_points(F, M)
     R.count('entry_points', len(eps))
     idx_writer_fns = []
